@@ -375,6 +375,34 @@ def _run_cvc5(smt2: str, timeout_ms: int):
         os.unlink(path)
 
 
+def _divmod_count(roots):
+    return sum(1 for t in ir.subterms(roots) if t.op in ("fdiv", "mod"))
+
+
+def _run(lw, assumptions, goal, roots, timeout_ms, backend):
+    t0 = time.time()
+    s = z3.Solver()
+    s.set("timeout", int(timeout_ms))
+    zs = [lw.lower(a) for a in assumptions]
+    zg = lw.lower(goal)
+    for c in lw.side:
+        s.add(c)
+    for c in zs:
+        s.add(c)
+    s.add(z3.Not(zg))
+    r = s.check()
+    dt = time.time() - t0
+    if r == z3.unsat:
+        return Result("proved", backend=backend, seconds=dt)
+    if r == z3.sat:
+        model = _extract_model(lw, s.model(), roots)
+        why = _validate(assumptions, goal, model)
+        if why is None:
+            return Result("refuted", model=model, backend=backend, seconds=dt)
+        return Result("unknown", model=model, backend=backend, seconds=dt, reason="counter-model rejected by Python evaluation: " + why)
+    return Result("unknown", backend=backend, seconds=dt, reason=s.reason_unknown())
+
+
 def _flatten_and(t, out):
     if t.op == "and":
         _flatten_and(t.args[0], out)
@@ -385,12 +413,15 @@ def _flatten_and(t, out):
 
 def solve(assumptions, goal, timeout_ms=10000, use_cvc5=False) -> Result:
     """Is (and assumptions) => goal valid?  A conjunction that does not close in one query is split."""
-    r = solve1(assumptions, goal, timeout_ms, use_cvc5)
     goal = ir.lift(goal)
-    if r.status != "unknown" or goal.op != "and":
-        return r
     parts = []
     _flatten_and(goal, parts)
+    if len(parts) >= 6 and len(list(ir.subterms([goal]))) > 400:
+        r = Result("unknown", seconds=0.0)       # large conjunction: go straight to per-conjunct queries
+    else:
+        r = solve1(assumptions, goal, timeout_ms, use_cvc5)
+    if r.status != "unknown" or goal.op != "and":
+        return r
     total = r.seconds
     backends = set()
     for c in parts:
@@ -423,6 +454,18 @@ def solve1(assumptions, goal, timeout_ms=10000, use_cvc5=False) -> Result:
             backend = "z3-int"
     except Unbounded as e:
         return Result("unknown", backend="none", seconds=time.time() - t0, reason=str(e))
+    if backend == "z3-int" and not ir.has_nonlinear(roots) and _divmod_count(roots) >= int(os.environ.get("PYVC_BV_FIRST", "4")):
+        # mask/shift-heavy linear obligation over bounded terms: bit-vectors decide these in milliseconds
+        # where LIA with div/mod times out.  Same exactness argument as above (width covers every interval).
+        try:
+            lb = BVLower(roots)
+            if lb.w <= 96:
+                rb = _run(lb, assumptions, goal, roots, min(timeout_ms, 8000), "z3-bv")
+                if rb.status != "unknown":
+                    rb.seconds = time.time() - t0
+                    return rb
+        except Unbounded:
+            pass
     if backend == "z3-int" and (ir.has_nonlinear(roots) or any(t.op == "ite" and ite_chain_len(t) >= 8 for t in ir.subterms(roots))):
         la = IntLower(abstract=True)
         sa = z3.Solver()
